@@ -818,6 +818,29 @@ static void op_input(struct st *s)
     }
 }
 
+static void ref_flush(struct st *s, bool release);
+/* the last handle on the pipe is released by its output, from inside the input
+ * function of the pipe (legal: whoever holds a reference may release it anywhere) */
+static void op_input_released_by_output(struct st *s)
+{
+    const struct desc *d = s->d;
+    if (!s->flow_ok || nin >= MAXIN || s->cur_out < 0 || !s->sink_accept[s->cur_out]) return;
+    if (d->klass != K_IDENTITY && d->klass != K_TRANSFORM && d->klass != K_REGROUP) return;
+    if (d->klass == K_DUP) return;
+    for (int k = 0; k < s->nsubs; k++) if (s->subs[k]) return;
+    lab_sink_arm_release(s->sinks[s->cur_out], s->pipe);
+    struct upipe *sink = s->sinks[s->cur_out];
+    op_input(s);
+    if (lab_sink_armed(sink)) lab_sink_arm_release(sink, NULL);      /* nothing was delivered: the driver keeps its handle */
+    else {
+        OP("(the output released the pipe during that input)");
+        if (mode == MODE_C14 && d->klass == K_REGROUP) ref_flush(s, true);
+        s->released = true;
+        s->pipe = NULL;
+        VH_COUNT("op.released_by_output_during_input");
+    }
+}
+
 static void op_set_output(struct st *s)
 {
     if (s->d->klass == K_SINK) return;
@@ -1279,7 +1302,8 @@ static void exec_history(uint64_t seed, bool getters, struct hist_out *out)
         else if (c < 76) op_flush(s);
         else if (c < 86) { if (s->d->rand_ctl) s->d->rand_ctl(s); }
         else if (c < 93) op_sub(s);
-        else if (c < 98) { if (s->d->needs_loop) { OP("loop"); mockloop_advance(E.upump_mgr, vh_below(R, 200000)); run_loop_some(s, 50); } }
+        else if (c < 97) { if (s->d->needs_loop) { OP("loop"); mockloop_advance(E.upump_mgr, vh_below(R, 200000)); run_loop_some(s, 50); } }
+        else if (c < 98) op_input_released_by_output(s);
         else release_pipe(s);
         if (s->d->needs_loop && vh_chance(R, 1, 3)) run_loop_some(s, 20);
         if (with_getters && !s->released && vh_chance(&G, 1, 2)) do_getters(s);
@@ -1493,7 +1517,7 @@ static void c12_case(struct vh_rng *r)
             bool via_q = c12_has_q && end == c12_n - 1;
             if (via_q) mockloop_run(E.upump_mgr, R, 10000, 16);
             bool answered_now = (c12_out[end] == -1 && (q->type == UREQUEST_UREF_MGR || q->type == UREQUEST_UCLOCK || q->type == UREQUEST_UBUF_MGR)) ||
-                                (c12_out[end] >= 0 && lab_sink_id(c12_sinks[c12_out[end]]) >= 0 && 0);
+                                (c12_out[end] >= 0 && c12_out[end] < 3 && lab_sink_id(c12_sinks[c12_out[end]]) >= 0 && 0);
             if (c12_out[end] == -1 && !q->probe_lodged)
                 vh_violation("c12:not-thrown-to-probe", "request r%d (%s) registered on a chain without output was not thrown to the probe of its last pipe", k, urequest_type_str(q->type));
             if (answered_now && !q->provided)
@@ -1510,14 +1534,23 @@ static void c12_case(struct vh_rng *r)
             VH_COUNT("c12.unregister");
         } else if (c < 70) {
             int k = vh_below(R, c12_n);
-            int o = vh_below(R, 5) - 2;          /* -2 next, -1 none, 0..2 sink */
+            int o = vh_below(R, 6) - 2;          /* -2 next, -1 none, 0..2 sink, 3 an output that only the pipeline references */
             if (o == -2 && k == c12_n - 1) o = -1;
+            if (o == 3 && (lab_nprobes > LAB_MAX_PIPES - 4 || (c12_has_q && k == c12_n - 2))) o = -1;
             /* a sink has a single upstream */
-            if (o >= 0) { bool used = false; for (int j = 0; j < c12_n; j++) if (j != k && c12_out[j] == o) used = true; if (used) continue; }
+            if (o >= 0 && o < 3) { bool used = false; for (int j = 0; j < c12_n; j++) if (j != k && c12_out[j] == o) used = true; if (used) continue; }
             OP("set_output(p%d,%d)", k, o);
             for (int q = 0; q < C12_MAXR; q++) C12R[q].probe_lodged = false;
             struct upipe *target = c12_has_q && k == c12_n - 1 ? c12_qsrc : c12_pipes[k];
-            upipe_set_output(target, o == -2 ? c12_pipes[k + 1] : o == -1 ? NULL : c12_sinks[o]);
+            if (o == 3) {
+                /* the harness drops its handle at once: the output dies when it is replaced or when the pipe dies */
+                struct upipe *tmp = lab_sink_new("tmpsink", NULL);
+                lab_sink_set_request_mode(tmp, vh_below(R, 3));
+                upipe_set_output(target, tmp);
+                upipe_release(tmp);
+                VH_COUNT("c12.output_owned_by_the_pipeline");
+            } else
+                upipe_set_output(target, o == -2 ? c12_pipes[k + 1] : o == -1 ? NULL : c12_sinks[o]);
             c12_out[k] = o;
             VH_COUNT("c12.replumb");
         } else if (c < 85) {
